@@ -21,6 +21,16 @@ OUTSIDE = [
     "WORKING_ADDITIONALLY (never set by base code)", "unit_time != 1",
 ]
 
+REQUIRED = {
+    "C02": ["finish", "multi-worker", "must-finish", "absent-worker-on-working-task"],
+    "C03": ["release-on-finish", "worker-holds"],
+    "C04": ["allocation", "pair", "solo-alone"],
+    "C05": ["success", "failure", "feasible-with-enough-time", "unserved-task"],
+    "C06": ["free-worker-and-active-task", "idle-but-task-cannot-accept", "must-finish"],
+    "C07": ["charged", "absence-step"],
+    "C10": ["project-absence-step", "worker-absence", "auto-at-absence"],
+}
+
 KN = {0: "FS", 1: "SS", 2: "FF", 3: "SF"}
 
 
@@ -127,6 +137,151 @@ def p_rules(wmax=2, H=8, timeout=150, rules=range(9), shapes=None):
     return obs
 
 
+def p_contention(thorough=False, H=8, timeout=120):
+    """Contention: 3 tasks, 2-3 workers; skills of worker 0 symbolic (0 = no skill), work symbolic, one symbolic
+    absence step for worker 0; cubes over shape, task rule, solo flag, fixed-id list, team layout."""
+    obs = []
+    shapes = {"indep": [], "fork": [(0, 1, 0), (0, 2, 0)], "ss": [(0, 1, 1)], "ff": [(0, 2, 2)]}
+    rules = (0, 2, 4, 5) if not thorough else range(9)
+    variants = []
+    for solo in (None, 0):
+        for fix in (None, "t0:w1", "t1:none"):
+            for teams in ("one", "two"):
+                variants.append((solo, fix, teams))
+    nW = 3 if thorough else 2
+    for sname, es in shapes.items():
+        for rule in rules:
+            for (solo, fix, teams) in variants:
+                if not thorough and (sname in ("ss", "ff")) and (rule != 0 or fix is not None):
+                    continue
+                tasks = [{"w": "$w%d" % i} for i in range(3)]
+                if fix == "t0:w1":
+                    tasks[0]["fixw"] = [1]
+                elif fix == "t1:none":
+                    tasks[1]["fixw"] = []
+                ws = []
+                for w in range(nW):
+                    if w == 0:
+                        wk = {"skills": {str(i): "$s0%d" % i for i in range(3)}, "abs": ["$a0"], "cost": 1}
+                    elif w == 1:
+                        wk = {"skills": {"0": 1, "1": 1, "2": 1}}
+                    else:
+                        wk = {"skills": {"1": 2, "2": "$s22"}, "abs": ["$a2"]}
+                    if solo == w:
+                        wk["solo"] = True
+                    ws.append(wk)
+                if teams == "one":
+                    tm = [_team(ws, [0, 1, 2])]
+                else:
+                    tm = [_team(ws[:1], [0, 1]), _team(ws[1:], [0, 1, 2])]
+                spec = {"tasks": tasks, "edges": [list(e) for e in es], "teams": tm, "run": {"max_time": H, "rule": rule}}
+                params = [["w%d" % i, 0 if thorough else 1, 3 if thorough else 2] for i in range(3)] + [["s0%d" % i, 0, 2] for i in range(3)] + [["a0", -1, 2]]
+                if nW == 3:
+                    params += [["s22", 0, 2], ["a2", -1, 1]]
+                obs.append({"name": "cont/%s/rule=%d/solo=%s/fix=%s/teams=%s" % (sname, rule, solo, fix, teams), "harness": "sim",
+                            "cube": {"spec": spec}, "params": params, "timeout": timeout})
+    return obs
+
+
+def p_facility(thorough=False, H=8, timeout=120):
+    """Facility tasks: 2 tasks each with its own single-task component, 1-2 workplaces with facilities,
+    workers with facility skills; symbolic work, worker skill, facility skills, capacity."""
+    obs = []
+    layouts = ["1wp2f", "2wp"]
+    for layout in layouts:
+        for fsk in ("all", "w0f0-only"):
+            for solo_f in (False, True):
+                for fixf in (None, "t0:f1"):
+                    for mixed in (False, True):
+                        tasks = [{"w": "$w0", "nf": True, "comp": 0}, {"w": "$w1", "nf": (not mixed), "comp": 1}]
+                        if fixf == "t0:f1":
+                            tasks[0]["fixf"] = [1]
+                        if layout == "1wp2f":
+                            wps = [{"targets": [0, 1], "cap": "$cap", "facs": [
+                                {"skills": {"0": "$f00", "1": 1}, "solo": solo_f, "abs": ["$fa0"]},
+                                {"skills": {"0": 1, "1": "$f11"}}]}]
+                            nf = 2
+                        else:
+                            wps = [{"targets": [0, 1], "cap": "$cap", "facs": [{"skills": {"0": "$f00", "1": 1}, "solo": solo_f, "abs": ["$fa0"]}]},
+                                   {"targets": [0, 1], "cap": 1, "facs": [{"skills": {"0": 1, "1": "$f11"}}]}]
+                            nf = 2
+                        for t in tasks:
+                            t["wps"] = list(range(len(wps)))
+                        if fsk == "all":
+                            fs0 = {str(f): 1 for f in range(nf)}
+                            fs1 = {str(f): 1 for f in range(nf)}
+                        else:
+                            fs0 = {"0": 1}
+                            fs1 = {"0": 0, "1": 1}
+                        ws = [{"skills": {"0": "$s00", "1": 1}, "fskills": fs0}, {"skills": {"0": 1, "1": 1}, "fskills": fs1, "abs": ["$a1"]}]
+                        spec = {"tasks": tasks, "edges": [], "teams": [_team(ws, [0, 1])], "wps": wps,
+                                "comps": [{"size": 1}, {"size": 1}], "run": {"max_time": H}}
+                        params = [["w0", 1, 3 if thorough else 2], ["w1", 1, 2], ["s00", 0, 2], ["f00", 0, 2], ["f11", 0, 2], ["cap", 1, 2], ["fa0", -1, 1], ["a1", -1, 1]]
+                        obs.append({"name": "fac/%s/fsk=%s/solof=%d/fixf=%s/mixed=%d" % (layout, fsk, solo_f, fixf, mixed), "harness": "sim",
+                                    "cube": {"spec": spec}, "params": params, "timeout": timeout})
+    return obs
+
+
+def p_cost(thorough=False, H=8, timeout=120):
+    """Cost accounting: symbolic cost rates, work, absence steps; two teams, optional workplace with a facility."""
+    obs = []
+    for with_fac in (False, True):
+        for k in (0, 1):
+            tasks = [{"w": "$w0"}, {"w": "$w1"}]
+            wps, comps = [], []
+            if with_fac:
+                tasks[1].update({"nf": True, "comp": 0, "wps": [0]})
+                wps = [{"targets": [1], "cap": 1, "facs": [{"skills": {"1": 1}, "cost": "$cf", "abs": ["$fa0"]}]}]
+                comps = [{"size": 1}]
+            ws0 = [{"skills": {"0": 1, "1": 1}, "cost": "$c0", "abs": ["$a0"], "fskills": {"0": 1}}]
+            ws1 = [{"skills": {"0": 1, "1": 1}, "cost": "$c1", "fskills": {"0": 1}}]
+            spec = {"tasks": tasks, "edges": [[0, 1, k]], "teams": [_team(ws0, [0, 1]), _team(ws1, [0, 1])], "wps": wps, "comps": comps,
+                    "run": {"max_time": H, "abs": ["$pa0", "$pa1"]}}
+            params = [["w0", 0, 3], ["w1", 0, 3], ["c0", 0, 3], ["c1", 0, 3], ["a0", -1, 2], ["pa0", -1, 3], ["pa1", -1, 3]]
+            if with_fac:
+                params += [["cf", 0, 2], ["fa0", -1, 2]]
+            obs.append({"name": "cost/fac=%d/k=%s" % (with_fac, KN[k]), "harness": "sim", "cube": {"spec": spec}, "params": params, "pre": "pa0 <= pa1", "timeout": timeout})
+    return obs
+
+
+def p_feasible(thorough=False, timeout=150):
+    """C05 liveness: all kinds, private/shared workers, skill 1..2 (worker 0's skills symbolic incl. 0 = cannot serve),
+    one symbolic project absence step and one worker absence step; max_time above the sequential bound."""
+    obs = []
+    T = 3 if thorough else 2
+    wmax = 2
+    H = T + 1 + T * (wmax + 1) + 2 + 1  # bound + 1
+    edge_sets = list(all_edge_sets(T))
+    for es in edge_sets:
+        for ks in itertools.product((0, 1, 2, 3), repeat=len(es)):
+            for layout in ("private", "shared1", "shared2", "mixed"):
+                if layout == "private":
+                    ws = [{"skills": {str(i): ("$s%d" % i)}, "abs": (["$a0"] if i == 0 else [])} for i in range(T)]
+                elif layout.startswith("shared"):
+                    nw = int(layout[6:])
+                    ws = [{"skills": {str(i): ("$s%d" % i if w == 0 else 1) for i in range(T)}, "abs": (["$a0"] if w == 0 else [])} for w in range(nw)]
+                else:
+                    ws = [{"skills": {str(i): "$s%d" % i}, "abs": (["$a0"] if i == 0 else [])} for i in range(T)] + [{"skills": {str(i): 1 for i in range(T)}}]
+                spec = {"tasks": [{"w": "$w%d" % i} for i in range(T)], "edges": [[i, j, k] for (i, j), k in zip(es, ks)],
+                        "teams": [_team(ws, list(range(T)))], "run": {"max_time": H, "abs": ["$pa0"]}}
+                params = [["w%d" % i, 0, wmax] for i in range(T)] + [["s%d" % i, 0, 2] for i in range(T)] + [["a0", -1, 2], ["pa0", -1, 2]]
+                obs.append({"name": "live/T=%d/%s/edges=%s" % (T, layout, ",".join("%d%s%d" % (i, KN[k], j) for (i, j), k in zip(es, ks)) or "-"),
+                            "harness": "sim", "cube": {"spec": spec}, "params": params, "timeout": timeout})
+    return obs
+
+
+def p_maxtime(thorough=False, timeout=150):
+    """C05 (a)/(b): symbolic max_time (including 0 and values below the makespan)."""
+    obs = []
+    for k in (0, 1, 2, 3):
+        for layout in ("private", "shared1"):
+            spec = {"tasks": [{"w": "$w0"}, {"w": "$w1"}], "edges": [[0, 1, k]], "teams": layout_workers(layout, 2),
+                    "run": {"max_time": "$M", "abs": ["$pa0"]}}
+            obs.append({"name": "maxtime/%s/k=%s" % (layout, KN[k]), "harness": "sim_nolive", "cube": {"spec": spec},
+                        "params": [["w0", 0, 3], ["w1", 0, 3], ["M", 0, 9 if thorough else 7], ["pa0", -1, 3]], "timeout": timeout})
+    return obs
+
+
 def obligations_for(prop, tier):
     import os
 
@@ -155,4 +310,23 @@ def _obligations_for(prop, tier):
             chain = [[(0, 1), (1, 2), (2, 3)], [(0, 1), (0, 2), (1, 3), (2, 3)]]
             obs += wf_cubes(4, ["private"], 2, kinds=(0, 1), edge_sets=chain, H=12, name="kinds4", timeout=900)
         return obs
+    if prop in ("C02", "C03", "C04", "C06"):
+        obs = p_contention(thorough, H=12 if thorough else 8, timeout=900 if thorough else 150)
+        obs += p_facility(thorough, H=12 if thorough else 8, timeout=900 if thorough else 150)
+        if prop == "C02":
+            obs += p_progress_auto(wmax=4 if thorough else 3, H=12 if thorough else 8, timeout=600 if thorough else 150)
+            obs += p_absence(wmax=3 if thorough else 2, H=12 if thorough else 8, timeout=900 if thorough else 200)
+        return obs
+    if prop == "C05":
+        obs = p_feasible(thorough, timeout=900 if thorough else 150) + p_maxtime(thorough, timeout=600 if thorough else 150)
+        # simulate() must return on product/facility models too (owned by C05: "simulate() always returns")
+        for ob in p_facility(thorough, timeout=900 if thorough else 150) + p_contention(thorough, timeout=900 if thorough else 150):
+            ob = dict(ob)
+            ob["harness"] = "sim_nolive"
+            obs.append(ob)
+        return obs
+    if prop == "C07":
+        return p_cost(thorough, timeout=900 if thorough else 150) + p_facility(thorough, timeout=900 if thorough else 150)[:8]
+    if prop == "C10":
+        return p_absence(wmax=3 if thorough else 2, H=12 if thorough else 8, timeout=900 if thorough else 200) + p_cost(thorough, timeout=900 if thorough else 150)
     raise KeyError(prop)
